@@ -28,12 +28,19 @@ def scratch():
     return d
 
 
-def _run_tlc(module, cfg, env=None, workers=1, extra=(), timeout=3600, heap="2g", simulate=None):
+def _run_tlc(module, cfg, env=None, workers=1, extra=(), timeout=3600, heap="2g", simulate=None, cfg_text=None):
     d = scratch()
-    # copy the spec directory so that concurrent JVMs never share a metadir / .tlacov
+    # copy the spec directory so that concurrent JVMs never share a metadir / .tlacov; nothing is ever
+    # written into spec/ at run time (several checks may run side by side)
     for f in os.listdir(SPEC):
         if f.endswith(".tla") or f.endswith(".cfg"):
-            shutil.copy(os.path.join(SPEC, f), d)
+            try:
+                shutil.copy(os.path.join(SPEC, f), d)
+            except FileNotFoundError:
+                pass
+    if cfg_text is not None:
+        with open(os.path.join(d, cfg), "w") as fh:
+            fh.write(cfg_text)
     cmd = [
         "java", f"-Xmx{heap}", "-Xss128m", "-XX:+UseSerialGC" if workers == 1 else "-XX:+UseParallelGC", "-XX:TieredStopAtLevel=4", "-cp", JAR, "tlc2.TLC",
         "-config", cfg, "-workers", str(workers), "-metadir", os.path.join(d, "meta"),
@@ -96,10 +103,10 @@ def fatal(out):
 
 
 def model_check(module, cfg, workers=None, expect_violation=False, extra=(), timeout=3600, heap="4g",
-                env=None, simulate=None):
+                env=None, simulate=None, cfg_text=None):
     """Leg A: run a bounded instance.  Returns dict(ok, states, distinct, violated, out)."""
     res = _run_tlc(module, cfg, workers=workers or NCPU, extra=extra, timeout=timeout, heap=heap, env=env,
-                   simulate=simulate)
+                   simulate=simulate, cfg_text=cfg_text)
     out = res["out"]
     _cleanup(res)
     f = fatal(out)
@@ -124,23 +131,13 @@ def model_check_sharded(module, cfg, nshards=None, timeout=3600, heap="2g"):
     thread, so the universe is split over JVMs with the constants Shard / NShards."""
     n = nshards or NCPU
     base = open(os.path.join(SPEC, cfg)).read()
-    names = []
-    for k in range(n):
-        name = cfg.replace(".cfg", f"__shard{k}.cfg")
-        with open(os.path.join(SPEC, name), "w") as fh:
-            fh.write(re.sub(r"NShards = \d+", f"NShards = {n}", re.sub(r"Shard = \d+", f"Shard = {k}", base, count=1)))
-        names.append(name)
+    texts = [re.sub(r"NShards = \d+", f"NShards = {n}", re.sub(r"Shard = \d+", f"Shard = {k}", base, count=1))
+             for k in range(n)]
     t0 = time.time()
-    try:
-        with ThreadPoolExecutor(max_workers=NCPU) as ex:
-            futs = [ex.submit(model_check, module, nm, 1, False, (), timeout, heap) for nm in names]
-            rs = [f.result() for f in futs]
-    finally:
-        for nm in names:
-            try:
-                os.remove(os.path.join(SPEC, nm))
-            except OSError:
-                pass
+    with ThreadPoolExecutor(max_workers=NCPU) as ex:
+        futs = [ex.submit(model_check, module, cfg.replace(".cfg", f"__shard{k}.cfg"), 1, False, (), timeout, heap,
+                          None, None, texts[k]) for k in range(n)]
+        rs = [f.result() for f in futs]
     bad = [r for r in rs if not r["ok"]]
     return {"ok": not bad, "violated": bool(bad), "states": sum(r["states"] for r in rs),
             "distinct": sum(r["distinct"] for r in rs), "wall": time.time() - t0,
